@@ -49,7 +49,7 @@ type seq struct {
 	app    appendable.Appendable
 	ro     bool
 	closed bool
-	dead   bool
+	dead   atomic.Bool
 	base   int64 // header length of every file of this appendable
 	opNo   atomic.Int32
 
@@ -126,7 +126,7 @@ func (s *seq) violation(sig, detail string, fatal bool) { s.violationK(s.kind, s
 
 func (s *seq) violationK(kind, sig, detail string, fatal bool) {
 	if fatal {
-		s.dead = true
+		s.dead.Store(true)
 	}
 	s.tmu.Lock()
 	tr := strings.Join(s.trace, "\n") + "\n"
@@ -145,7 +145,7 @@ func (s *seq) cfString() string {
 func (s *seq) guard(op string, f func()) bool {
 	p, sig, text := fw.Guard(f)
 	if p {
-		s.dead = true
+		s.dead.Store(true)
 		s.tmu.Lock()
 		tr := strings.Join(s.trace, "\n") + "\n"
 		s.tmu.Unlock()
@@ -280,7 +280,7 @@ func (s *seq) checkOpened(app appendable.Appendable, what string) (int64, bool) 
 
 func (s *seq) openFresh() bool {
 	app, err := s.openApp(s.path, false)
-	if s.dead {
+	if s.dead.Load() {
 		return false
 	}
 	if err != nil {
@@ -704,12 +704,12 @@ func (s *seq) appendCompressed(bs []byte) {
 // settle: after an injected failure the operation is retried; a Sync without faults must succeed
 // and the bytes must still equal the model.
 func (s *seq) settle(what string, fired bool) {
-	if s.dead || s.ro {
+	if s.dead.Load() || s.ro {
 		return
 	}
 	if fired && s.r.IntN(2) == 0 {
 		s.opRead() // read inside the window between the failure and the retry
-		if s.dead {
+		if s.dead.Load() {
 			return
 		}
 	}
@@ -1301,7 +1301,7 @@ func (s *seq) readCompressed() {
 	s.tr("ReadAt(len=%d, entry off=%d len=%d)", n, e.off, len(e.data))
 	var ok bool
 	if rn, err, ok = s.riskyRead(s.app, bs, e.off); !ok {
-		s.dead = true
+		s.dead.Store(true)
 		return
 	}
 	out := s.judgeEntry(e, bs, rn, err, false)
@@ -1333,7 +1333,9 @@ func (s *seq) judgeEntry(e entry, bs []byte, rn int, err error, concurrent bool)
 		if concurrent {
 			ctx += s.diag(e.off, len(bs))
 		}
-		s.violation("read/wrong-entry/"+s.tail(), fmt.Sprintf("%s returned n=%d err=%v, payload equal=%v", ctx, rn, err, rn == len(want) && bytes.Equal(bs[:rn], want)), false)
+		// the sequence ends here: on a tree with this defect every further compressed read may
+		// cost a multi-GiB allocation
+		s.violation("read/wrong-entry/"+s.tail(), fmt.Sprintf("%s returned n=%d err=%v, payload equal=%v", ctx, rn, err, rn == len(want) && bytes.Equal(bs[:rn], want)), true)
 		return "MISMATCH"
 	}
 	if (rn == len(bs)) != (err == nil) {
@@ -1381,7 +1383,7 @@ func (s *seq) verify(app appendable.Appendable, what string, span int64) bool {
 			var err error
 			var ok bool
 			if rn, err, ok = s.riskyRead(app, bs, e.off); !ok {
-				s.dead = true
+				s.dead.Store(true)
 				return false
 			}
 			if s.judgeEntry(e, bs, rn, err, false) == "MISMATCH" {
@@ -1464,7 +1466,7 @@ func (s *seq) opCopy() {
 	}
 	ro := s.r.IntN(2) == 0
 	cp, err := s.openApp(dst, ro)
-	if s.dead {
+	if s.dead.Load() {
 		return
 	}
 	if err != nil {
@@ -1519,12 +1521,12 @@ func (s *seq) opReopen() {
 	// a closed appendable must refuse politely (only panics are judged here)
 	s.guard("ReadAt(closed)", func() { s.app.ReadAt(make([]byte, 4), 0) })
 	s.guard("Size(closed)", func() { s.app.Size() })
-	if s.dead {
+	if s.dead.Load() {
 		return
 	}
 	if s.r.IntN(3) == 0 {
 		app, err := s.openApp(s.path, true)
-		if s.dead {
+		if s.dead.Load() {
 			return
 		}
 		if err != nil {
@@ -1539,7 +1541,7 @@ func (s *seq) opReopen() {
 			s.distinct("reopen-ro", buf, "-", "equal")
 		}
 		s.guard("Close", func() { err = app.Close() })
-		if s.dead {
+		if s.dead.Load() {
 			return
 		}
 		if err != nil {
@@ -1549,7 +1551,7 @@ func (s *seq) opReopen() {
 	}
 	drawRuntime(s.r, &s.cf)
 	app, err := s.openApp(s.path, false)
-	if s.dead {
+	if s.dead.Load() {
 		return
 	}
 	if err != nil {
@@ -1653,7 +1655,7 @@ func (s *seq) opConcurrent() {
 			}
 		}()
 	}
-	for i := 0; i < nw && !s.dead; i++ {
+	for i := 0; i < nw && !s.dead.Load(); i++ {
 		s.opNo.Add(1)
 		switch s.r.IntN(10) {
 		case 0:
@@ -1760,16 +1762,16 @@ func (s *seq) run(nops int) {
 	if !s.openFresh() {
 		return
 	}
-	for int(s.opNo.Load()) < nops && !s.dead {
+	for int(s.opNo.Load()) < nops && !s.dead.Load() {
 		s.step()
 	}
-	if s.dead {
+	if s.dead.Load() {
 		return
 	}
 	// final: everything written must survive flush + close + reopen
 	s.opNo.Add(1)
 	s.opReopen()
-	if s.dead {
+	if s.dead.Load() {
 		return
 	}
 	s.c.Count("sequences_completed", 1)
